@@ -385,7 +385,7 @@ class Optimizer(Logger, Citable):
 
     def disable_derived(self, parameter):
 
-        obj = self._model if parameter in self._model.fittingParameters \
+        obj = self._model if parameter in self._model.derivedParameters \
             else self._observed
 
         name, latex, fget, compute = \
